@@ -82,7 +82,7 @@ struct TrajCase {
                  // bit4 outputEnergy h, bit5 outputCenters h, bit6 outputAccumulatedWork h
   int freq;
   int split;     // 0 = single run; K>0 = a second run starts by repeating engine step K
-  int restart;   // with split>0: 0 = new run in the same process, 1 = fresh module loading the saved state
+  int restart;   // with split>0: 0 = new run in the same process, 1 = fresh module loading the saved state, 2 = new run in the same process of an engine that counts the steps of each run from its first step (it_restart = it)
   int addcv;     // 0 = never; A>0 = a further variable "e" is defined just before step A
   std::vector<int> word;
   int toggle = 0;  // T>0: just before step T the script interface flips the velocity column of d ("cv colvar d set output_velocity ...")
@@ -158,7 +158,8 @@ static void check_traj_case(TrajCase const &c, Result &r, std::string const &pre
     if (s == prev) {
       px->end_run();
       run++;
-      if (c.restart) {
+      if (c.restart == 2) px->colvars->it_restart = px->colvars->it;
+      if (c.restart == 1) {
         std::string st = px->state_text();
         texts.push_back(slurp(files.back()));
         delete px;
@@ -368,7 +369,10 @@ static void check_traj_case(TrajCase const &c, Result &r, std::string const &pre
   // ... and of the variable evaluated every second step: the difference of its last two values over the two steps between them
   for (size_t i = 0; i < lines.size(); i++) {
     long s = lines[i].step;
-    if (s < 2 || (s % 2) || expect[i]->run > 0 || !lines[i].col.count("v_sl")) continue;
+    if (s < 2 || (s % 2) || !lines[i].col.count("v_sl")) continue;
+    // (a further run in the same process goes on from the values of the previous one; its repeated first step and a fresh
+    // process, whose previous value comes from the state file, are left out)
+    if (expect[i]->run > 0 && (c.restart == 1 || s == c.split)) continue;
     double vref = 0.5 * (dist_of(VALS[c.word[s]]) - dist_of(VALS[c.word[s - 2]]));
     double a = lines[i].col["v_sl"][0];
     if (!close_rel(a, vref, std::max(1.0, std::fabs(vref)), 1e-11, 1e-12))
@@ -636,7 +640,7 @@ int main(int argc, char **argv)
     for (int flags = 0; flags < 128; flags++)
       for (int freq = 1; freq <= 3; freq++)
         for (int split = 0; split < Ltraj; split++)
-          for (int restart = 0; restart <= (split ? 1 : 0); restart++)
+          for (int restart = 0; restart <= (split ? 2 : 0); restart++)
             for (int addcv = 0; addcv < Ltraj; addcv++)
               for (long w = 0; w < nwords; w++) {
                 // quick tier: all flag subsets x freq x segmentation x definition point on 1 word in 9; all words on 6 flag subsets
@@ -647,12 +651,12 @@ int main(int argc, char **argv)
                 if (thorough) {
                   // thorough tier: all flag subsets x freq x segmentation x definition point on 1 word in 9 (27 words of 5
                   // values); all 243 words on 6 flag subsets (the full product is 4.2 million module runs with file output)
-                  bool word_sel = (w % 9 == 4);
+                  bool word_sel = (w % 9 == 5);   // (words beginning with two different values)
                   bool flag_sel = (flags == 0 || flags == 127 || flags == 0x55 || flags == 0x2a || flags == 7 || flags == 0x78);
                   if (!(word_sel || flag_sel)) continue;
                 }
                 if (!thorough) {
-                  bool word_sel = (w % 27 == 13);
+                  bool word_sel = (w % 27 == 5);   // (words beginning with three different values)
                   bool flag_sel = (flags == 0 || flags == 127 || flags == 0x55 || flags == 0x2a || flags == 7 || flags == 0x78);
                   bool small_menu = (addcv == 0 || addcv == 1 || addcv == Ltraj - 1) && (split == 0 || split == 2);
                   if (!(word_sel || (flag_sel && small_menu && (w % 3 == 1)))) continue;
@@ -665,7 +669,7 @@ int main(int argc, char **argv)
     size_t n0 = tc.size();
     for (size_t i = 0; i < n0; i += 7)
       for (int T = 1; T < Ltraj; T++) {
-        if (tc[i].restart && tc[i].split && T <= tc[i].split) continue;  // (the flag is not part of the saved state: a new session starts from its configuration)
+        if (tc[i].restart == 1 && tc[i].split && T <= tc[i].split) continue;  // (the flag is not part of the saved state: a new session starts from its configuration)
         TrajCase c = tc[i]; c.toggle = T; tc.push_back(c);
       }
   }
